@@ -112,6 +112,29 @@ def oracle(ck, tier, deep):
         ic = quiet(find_origin, im, "image_center")
         if tuple(ic) != (rows // 2, cols // 2):
             ck.violation(dict(site="find_origin", method="image_center", clause="image_center"), rep, f"image_center returned {ic}")
+    # content whose centre of symmetry is far from the middle of the frame (towards an edge or a corner)
+    for _ in range(40 if not deep else 400):
+        rows, cols = (int(v) for v in rng.integers(24, 50, size=2))
+        k = int(rng.integers(3, 6))
+        blob = symmetric_image(rng, 2 * k + 1, 2 * k + 1, 2 * k, 2 * k)        # symmetric about its own centre (k, k)
+        cy = int(rng.integers(k, max(k + 1, rows // 5)))
+        cx = int(rng.integers(k, max(k + 1, cols // 5)))
+        if rng.random() < 0.5:
+            cy = rows - 1 - cy
+        if rng.random() < 0.5:
+            cx = cols - 1 - cx
+        im = np.zeros((rows, cols))
+        im[cy - k:cy + k + 1, cx - k:cx + k + 1] = blob
+        ck.count(("S.corner", cy < rows // 2, cx < cols // 2), suite="S.symmetric")
+        for meth, tol in (("com", 1e-10), ("convolution", 0.0)):
+            try:
+                got = quiet(find_origin, im, meth)
+            except Exception as e:
+                ck.violation(dict(site="find_origin", method=meth, clause="exception"), dict(shape=[rows, cols], centre=[cy, cx]), f"{type(e).__name__}: {e}")
+                continue
+            if max(abs(got[0] - cy), abs(got[1] - cx)) > tol:
+                ck.violation(dict(site="find_origin", method=meth, clause="symmetric-centre"), dict(shape=[rows, cols], centre=[cy, cx], image=im.tolist()),
+                             f"{meth} returned {got} for content symmetric about {(cy, cx)} near the frame's edge")
     # Gaussian fit on Gaussian spots (to fit accuracy), translation on the same
     for _ in range(25 if not deep else 200):
         rows, cols = (int(v) for v in rng.integers(41, 70, size=2))
@@ -134,6 +157,18 @@ def oracle(ck, tier, deep):
             ck.violation(dict(site="find_origin", method="gaussian", clause="translation"), rep, f"gaussian: shift (3,-2) moved {got} -> {got2}")
         if max(abs(got_s[0] - got[0]), abs(got_s[1] - got[1])) > 1e-3:
             ck.violation(dict(site="find_origin", method="gaussian", clause="scale"), rep, f"gaussian: scaling moved {got} -> {got_s}")
+        # least squares is indifferent to the intensity unit, also on spots that are not Gaussian (side lobe + noise)
+        lob = im + 0.8 * np.exp(-(yy - cy - 5) ** 2 / 8.0 - (xx - cx + 6) ** 2 / 10.0) + 0.05 * rng.random((rows, cols))
+        try:
+            g1 = quiet(find_origin, lob, "gaussian")
+            for sc in (100.0, 0.01):
+                g2 = quiet(find_origin, lob * sc, "gaussian")
+                if max(abs(g2[0] - g1[0]), abs(g2[1] - g1[1])) > 1e-3:
+                    ck.violation(dict(site="find_origin", method="gaussian", clause="scale"), dict(rep, scale=sc),
+                                 f"gaussian on a non-Gaussian spot: scaling by {sc} moved the origin {g1} -> {g2}")
+                    break
+        except Exception as e:
+            ck.violation(dict(site="find_origin", method="gaussian", clause="exception"), rep, f"{type(e).__name__}: {e}")
 
 
 def run(tier):
